@@ -47,18 +47,13 @@ ASSUMPTIONS = [
     "SOAP message text contains no carriage return (xml.etree writes it unescaped: recorded under C12) and no CDATA section holding the literal text of pack.PREFIX",
     "redirect signing (SigAlg/Signature parameters) is C15's subject; URLs are built with sign=False",
 ]
-GEN = []
 PARALLEL = False
 
-try:
-    from translate import formspec as _formspec
-    GEN = [_formspec.generate]
-except Exception:  # pragma: no cover - reported by the runner as a translator failure
-    def _broken():
-        from translate import formspec
-        return formspec.generate()
-    GEN = [_broken]
+from translate import formspec as _formspec  # noqa: E402
 
+GEN = [_formspec.generate]     # saml2.pack.HTML_FORM_SPEC / HTML_INPUT_ELEMENT_SPEC / NAMESPACE / PREFIX -> Gen/FormSpec.lean
+
+SOAPENV = "http://schemas.xmlsoap.org/soap/envelope/"
 SAMLP = "urn:oasis:names:tc:SAML:2.0:protocol"
 SAML = "urn:oasis:names:tc:SAML:2.0:assertion"
 _state = {}
@@ -392,7 +387,7 @@ def gen_cases(rng, tier):
             yield {"op": "query", "text": t}
 
     # ---- HTTP-POST
-    for i in range(n(250, 2500)):
+    for i in range(n(500, 2500)):
         msg, _, _ = gen_message(rng, tier)
         c = rng.randrange(12)
         typ = "SAMLRequest" if c < 5 else "SAMLResponse" if c < 10 else rng.choice(["SAMLart", "x\"y", "Foo&Bar"])
@@ -435,7 +430,7 @@ def gen_cases(rng, tier):
         yield case
 
     # ---- HTTP-Redirect
-    for i in range(n(300, 3000)):
+    for i in range(n(600, 3000)):
         msg, _, _ = gen_message(rng, tier)
         c = rng.randrange(12)
         typ = "SAMLRequest" if c < 5 else "SAMLResponse" if c < 10 else rng.choice(["SAMLart", "Other"])
@@ -446,14 +441,14 @@ def gen_cases(rng, tier):
         yield {"op": "redirect", "typ": typ, "msg": msg, "loc": loc, "rs": gen_relay(rng), "via": via,
                "deflated": hx(zlib.compress(u8(msg))[2:-4]), "netloc_ok": netloc_ok(loc)}
     # ---- artifact URL
-    for i in range(n(150, 1500)):
+    for i in range(n(250, 1500)):
         art = base64.b64encode(b"\x00\x04" + bytes(rng.randrange(256) for _ in range(42))).decode()
         loc = gen_dest(rng)
         yield {"op": "artifact_url", "art": art, "loc": loc, "rs": gen_relay(rng), "netloc_ok": netloc_ok(loc),
                "via": rng.choice(["use_http_artifact", "apply_binding", "apply_binding_response"])}
 
     # ---- SOAP
-    for i in range(n(250, 2500)):
+    for i in range(n(400, 2500)):
         c = rng.randrange(10)
         if c < 7:
             msg, tree, tag = gen_message(rng, tier, soap=True)
@@ -490,6 +485,29 @@ def gen_cases(rng, tier):
         yield {"op": "soap", "as_object": spec, "thingy": "", "tree": cstr(canon_el(ET.fromstring(m.to_string()))), "tag": tag,
                "expected": [tag] if rng.random() < 0.8 else ["{%s}Other" % SAMLP],
                "headers": [cstr(canon_el(ET.fromstring(h.to_string()))) for h in headers]}
+
+    # envelopes from elsewhere: every branch of the unwrapping side
+    for i in range(n(120, 1200)):
+        root = rng.choice(["{%s}Envelope" % SOAPENV] * 6 + ["{%s}envelope" % SOAPENV, "{urn:c14:ext}Envelope", "Envelope"])
+        parts = []
+        for _ in range(rng.choice([0, 1, 1, 1, 2, 2, 3])):
+            kind = rng.choice(["body", "body", "header", "other"])
+            kids = [gen_tree(rng, 3) for _ in range(rng.choice([0, 1, 1, 1, 2]))]
+            for k in kids:
+                k[4] = ""
+            parts.append((kind, kids))
+        ptag = {"body": "{%s}Body" % SOAPENV, "header": "{%s}Header" % SOAPENV, "other": "{urn:c14:ext}Other"}
+        PREFIXES[SOAPENV] = "soapenv"
+        tree = [root, [], "", [[ptag[k], [], "", kids, ""] for k, kids in parts], ""]
+        xml = render_tree(tree)
+        first = next((kids for k, kids in parts if k == "body"), [])
+        tags = [[cstr(k), k[0]] for _, kids in parts for k in kids]
+        cand = [k[0] for k in first] or ["{%s}Response" % SAMLP]
+        expected = [rng.choice(cand)] if rng.random() < 0.7 else ["{%s}Other" % SAMLP]
+        yield {"op": "soap_unwrap", "envelope": xml, "expected": expected, "tags": tags,
+               "env": {"tag_ok": root == "{%s}Envelope" % SOAPENV,
+                       "parts": [{"kind": k, "children": [cstr(x) for x in kids]} if k != "other" else {"kind": "other"}
+                                 for k, kids in parts]}}
 
     # ---- artifacts
     stores = [gen_store(rng) for _ in range(n(2, 6))]
@@ -779,6 +797,9 @@ def run_impl(case):
             out = _unwrap(wrapped, case["expected"])
         return {"wrapped": wrapped, "env": _envelope(wrapped), "out": out}
 
+    if op == "soap_unwrap":
+        return {"out": _unwrap(case["envelope"], case["expected"])}
+
     if op == "artifact":
         try:
             art = create_artifact(case["entity_id"], bytes.fromhex(case["handle"]), case["idx"])
@@ -798,15 +819,15 @@ def run_impl(case):
                 seen = []
                 sp.sourceid = {b"s" * 20: {"idpsso_descriptor": [{"artifact_resolution_service": [{"index": _Probe(seen), "location": "x"}]}]}}
                 art = base64.b64encode(b"\x00\x04" + bytes([case["hi"], lo]) + b"s" * 20 + b"h" * 20).decode("ascii")
-                sp.artifact2destination(art, "idpsso")
+                try:
+                    sp.artifact2destination(art, "idpsso")
+                except (KeyError, ValueError):
+                    pass
                 out.append(seen[0] if len(seen) == 1 else "?")
         finally:
             sp.sourceid = saved
         return {"idx": out}
     raise ValueError(op)
-
-
-SOAPENV = "http://schemas.xmlsoap.org/soap/envelope/"
 
 
 def _envelope(data):
